@@ -3,12 +3,17 @@ import base64
 import hashlib
 
 from ..framework import Prop, mk, guarded, ensure_repo_on_path
-from .c13 import CHAINS, N, P, HALF, secrets, hist_shrinks
+from .c13 import CHAINS, N, P, HALF, secrets, hist_shrinks, b58check
 from . import c13_hist as H
 
 MAGIC = 'Bitcoin Signed Message:\n'
 ALPH = ['a', 'Z', '0', ' ', '\n', '\t', '\x00', '\x7f', '\x80', 'é', 'ß', 'Ж', '߿', 'ࠀ', '€', '中',
         '￿', '\U00010000', '😀', '\U0010ffff', '"', '\\']
+
+
+def atext(version, payload_hex):
+    """hex of the ASCII Base58Check text of (version, payload) — harness-local encoder"""
+    return b58check(int(version), bytes.fromhex(payload_hex)).encode('ascii').hex()
 
 
 def cps(text):
@@ -53,7 +58,8 @@ class C14(Prop):
     theorems = ['BtcVerif.C14.' + t for t in (
         'serVarInt_eq_compactSize', 'serBytes_eq_varBytes', 'msg_digest_eq_spec', 'msg_digest_text', 'magic_prefix',
         'msg_digest_too_long', 'headerByte_eq_spec', 'header_range', 'header_roundtrip', 'headerDecode_eq_spec',
-        'header_decode_encode', 'recoverCompact_length', 'verify_true_only_if', 'verify_true_if',
+        'header_decode_encode', 'recoverCompact_length', 'recoverCompact_header', 'verify_true_only_if', 'verify_true_if',
+        'base58_text_injective', 'verify_base58_address', 'verify_other_message',
         'verify_false_other', 'recover_correct', 'verify_recovered', 'signCompact_layout',
         'signCompact_error')]
     anchors = [('bitcoin/signmessage.py', 'VerifyMessage'), ('bitcoin/signmessage.py', 'SignMessage'),
@@ -65,7 +71,11 @@ class C14(Prop):
                     'OpenSSL arithmetic and random nonces are outside the model: covered only by this run',
                     'Lean String.toUTF8 is the reference UTF-8 encoder; addresses are compared as (version, payload), '
                     'the base58 text level is injective by C10']
-    assumptions = ['text messages are sequences of Unicode scalar values (no lone surrogates)']
+    assumptions = ['text messages are sequences of Unicode scalar values (no lone surrogates)',
+                   'T2 ONLY: the recovered key is the signer\'s (recover_correct / verify_recovered are abstract algebra; '
+                   'recover_eq_reference UNPROVED); "false for any other message" rests on verify_other_message '
+                   '(abstract: recovery is injective in the digest residue) plus collision resistance of SHA-256d and '
+                   'Hash160, which are hypotheses, not theorems']
     rule = ('histories on live objects (bitcoin.* re-imported per history): 2..3 keys, SignMessage / recover_compact / '
             'VerifyMessage alternately incl. after a failed recovery, stored addresses across chain switches; '
             'digest layout for UTF-8 byte lengths 0..300, 252/253/254/255/256, 65535/65536 (thorough) with default, '
@@ -163,9 +173,14 @@ class C14(Prop):
                                 (ver, hc, bytes([27 + recid + 4]) + r.to_bytes(32, 'big') + (N - sv).to_bytes(32, 'big')),
                                 (ver, hc, bytes([27 + (recid ^ 1) + 4]) + r.to_bytes(32, 'big')
                                  + (N - sv).to_bytes(32, 'big'))):      # the high-S twin with flipped parity verifies
-                yield mk('c14.verify', chain, v, pl, cps(MAGIC), cps(t), sg.hex(), tag='verify-lean-signed')
-            yield mk('c14.verify', chain, ver, hc, cps(MAGIC), cps(perturb(rng, t)), good_c.hex(), tag='verify-perturbed')
-            yield mk('c14.verify', chain, ver, hc, cps('X'), cps(t), good_c.hex(), tag='verify-magic')
+                yield mk('c14.verify', chain, atext(v, pl), cps(MAGIC), cps(t), sg.hex(), tag='verify-lean-signed')
+            yield mk('c14.verify', chain, atext(ver, hc), cps(MAGIC), cps(perturb(rng, t)), good_c.hex(), tag='verify-perturbed')
+            yield mk('c14.verify', chain, atext(ver, hc), cps('X'), cps(t), good_c.hex(), tag='verify-magic')
+            # the digest handed to recover_compact need not be 32 bytes: the code shifts longer ones
+            for ln in (0, 1, 31, 33, 34, 64):
+                hv = bytes(rng.randrange(256) for _ in range(ln))
+                for sg in (good_c, good_u):
+                    yield mk('c14.recoverCompact', hv.hex(), sg.hex(), tag='recover-hashlen')
             # recover_compact on the property's domain: headers 27..34, r, s in [1, n-1]; liftable or not, and
             # r = x - n with n <= x < p so that recovery ids 2 and 3 select a different abscissa
             for hb in range(27, 35):
@@ -213,7 +228,7 @@ class C14(Prop):
                         return b'\x00' * 64, int(a[0])
                 return guarded(lambda: str(base64.b64decode(SM.SignMessage(Stub(), SM.BitcoinMessage('x')))[0]))
             if op == 'c14.msg':
-                c['aux'] = ['00']
+                c['aux'] = ['00', '-', '-', '-', '-']
 
                 def f():
                     self.bitcoin.SelectParams(a[0])
@@ -223,22 +238,20 @@ class C14(Prop):
                     msg = SM.BitcoinMessage(text(a[3]))
                     b64 = SM.SignMessage(key, msg)
                     sig = base64.b64decode(b64)
-                    c['aux'] = [sig.hex()]
                     own = W.P2PKHBitcoinAddress.from_pubkey(key.pub)
+                    oth = W.P2PKHBitcoinAddress.from_pubkey(okey.pub)
+                    p2sh = W.P2SHBitcoinAddress.from_bytes(C.Hash160(key.pub))
+                    seg = W.P2WPKHBitcoinAddress.from_bytes(0, C.Hash160(key.pub))
+                    c['aux'] = [sig.hex()] + [str(x).encode('ascii').hex() for x in (own, oth, p2sh, seg)]
                     hdr = 0
                     if len(sig) == 65 and 27 <= sig[0] <= 34 and bool((sig[0] - 27) & 4) == comp:
                         rec = K.CPubKey.recover_compact(msg.GetHash(), sig)
                         hdr = 1 if (rec is not False and bytes(rec) == bytes(key.pub)) else 0
                     low = 1 if 1 <= int.from_bytes(sig[33:65], 'big') <= HALF else 0
                     v = lambda addr, m: guarded(lambda: '1' if SM.VerifyMessage(addr, m, b64) else '0')
-                    seg = v(W.P2WPKHBitcoinAddress.from_bytes(0, C.Hash160(key.pub)), msg)
-                    out = 'len=%d hdr=%d lowS=%d own=%s other=%s p2sh=%s pert=%s' % (
-                        len(sig), hdr, low, v(own, msg), v(W.P2PKHBitcoinAddress.from_pubkey(okey.pub), msg),
-                        v(W.P2SHBitcoinAddress.from_bytes(C.Hash160(key.pub)), msg),
+                    return 'len=%d hdr=%d lowS=%d addr=1 own=%s other=%s p2sh=%s segwit=%s pert=%s' % (
+                        len(sig), hdr, low, v(own, msg), v(oth, msg), v(p2sh, msg), v(seg, msg),
                         v(own, SM.BitcoinMessage(text(a[5]))))
-                    if seg != '0':
-                        out += ' segwit=' + seg
-                    return out
                 return guarded(f)
             if op == 'c14.signCompact':
                 c['aux'] = ['00', '0']
@@ -257,9 +270,9 @@ class C14(Prop):
             if op == 'c14.verify':
                 def f():
                     self.bitcoin.SelectParams(a[0])
-                    addr = self.B58.CBase58Data.from_bytes(bytes.fromhex(a[2]), int(a[1]))
-                    sig = base64.b64encode(bytes.fromhex(a[5]))
-                    return '1' if SM.VerifyMessage(addr, SM.BitcoinMessage(text(a[4]), text(a[3])), sig) else '0'
+                    addr = bytes.fromhex(a[1]).decode('ascii')          # VerifyMessage only ever uses str(address)
+                    sig = base64.b64encode(bytes.fromhex(a[4]))
+                    return '1' if SM.VerifyMessage(addr, SM.BitcoinMessage(text(a[3]), text(a[2])), sig) else '0'
                 return guarded(f)
         finally:
             if op in ('c14.msg', 'c14.verify'):
@@ -271,7 +284,7 @@ class C14(Prop):
         if op == 'c14.hist':
             return '\t'.join(['c14.hist', a[0]] + list(c.get('aux', [])))
         if op == 'c14.msg':
-            return '\t'.join(['c14.msg'] + list(a) + list(c.get('aux', ['00'])))
+            return '\t'.join(['c14.msg'] + list(a) + list(c.get('aux', ['00', '-', '-', '-', '-'])))
         if op == 'c14.signCompact':
             return '\t'.join(['c14.signCompact', a[0], a[2]] + list(c.get('aux', ['00', '0'])))
         return c.line
